@@ -468,6 +468,13 @@ type xblk struct {
 	kind  string // h p code tbl hr
 	level int
 	item  bool   // first paragraph of a list item (a bullet/number/check box may precede the text)
+	// list context (both readings yield it; sameReading compares it):
+	depth int  // number of lists the block is nested in, minus one; -1 = outside any list
+	ord   bool // item: the list is an ordered one
+	task  bool // item: the item starts with a task check box (GFM)
+	// flat (tree reading only): the block sits inside a block quote or inside a list item that holds anything but
+	// exactly one paragraph - the containers the open finding KF-C19-flatten-blocks is about
+	flat bool
 	cs    []ch   // h, p: text with per-character flags, white space collapsed
 	line  string // code: one source line without terminator
 	tbl   *xtbl
@@ -546,16 +553,27 @@ func readInl(xs []Inl, f uint8) []ch {
 	return out
 }
 
+// lctx: the list context a block is read in
+type lctx struct {
+	depth int // -1 outside any list
+	ord   bool
+	flat  bool
+}
+
 // readAST flattens the AST into the sequence of blocks a faithful rendering shows, in document order.
 func readAST(doc []Blk) []xblk {
 	var out []xblk
 	for i, b := range doc {
-		readBlk(b, i, &out)
+		readBlk(b, i, lctx{depth: -1}, &out)
 	}
 	return out
 }
 
-func readBlk(b Blk, top int, out *[]xblk) {
+func readBlk(b Blk, top int, lc lctx, out *[]xblk) {
+	add := func(x xblk) {
+		x.top, x.depth, x.flat = top, lc.depth, lc.flat
+		*out = append(*out, x)
+	}
 	switch b.K {
 	case "h":
 		lv := b.Level
@@ -565,28 +583,33 @@ func readBlk(b Blk, top int, out *[]xblk) {
 		if lv > 6 {
 			lv = 6
 		}
-		*out = append(*out, xblk{kind: "h", level: lv, cs: collapse(readInl(b.I, 0)), top: top})
+		add(xblk{kind: "h", level: lv, cs: collapse(readInl(b.I, 0))})
 	case "p":
-		*out = append(*out, xblk{kind: "p", cs: collapse(readInl(b.I, 0)), top: top})
+		add(xblk{kind: "p", cs: collapse(readInl(b.I, 0))})
 	case "hr":
-		*out = append(*out, xblk{kind: "hr", top: top})
+		add(xblk{kind: "hr"})
 	case "math":
-		*out = append(*out, xblk{kind: "p", cs: collapse(strChars(b.S, fAny)), top: top})
+		add(xblk{kind: "p", cs: collapse(strChars(b.S, fAny))})
 	case "code":
 		for _, l := range codeLines(b) {
-			*out = append(*out, xblk{kind: "code", line: dedent(l, fenceIndent(b)), top: top})
+			add(xblk{kind: "code", line: dedent(l, fenceIndent(b))})
 		}
 	case "bq":
+		in := lc
+		in.flat = true
 		for _, c := range b.B {
-			readBlk(c, top, out)
+			readBlk(c, top, in, out)
 		}
 	case "ul", "ol":
 		for _, it := range b.Items {
+			in := lctx{depth: lc.depth + 1, ord: b.K == "ol", flat: lc.flat || !onePara(it.B)}
 			for i, c := range it.B {
 				n := len(*out)
-				readBlk(c, top, out)
+				readBlk(c, top, in, out)
 				if i == 0 && c.K == "p" && len(*out) > n {
 					(*out)[n].item = true
+					(*out)[n].ord = in.ord
+					(*out)[n].task = it.Task > 0
 				}
 			}
 		}
@@ -612,7 +635,7 @@ func readBlk(b Blk, top int, out *[]xblk) {
 			}
 			t.cells = append(t.cells, cells)
 		}
-		*out = append(*out, xblk{kind: "tbl", tbl: t, top: top})
+		add(xblk{kind: "tbl", tbl: t})
 	}
 }
 
@@ -637,6 +660,9 @@ func sameReading(a, b []xblk) (bool, string) {
 		x, y := a[i], b[i]
 		if x.kind != y.kind || x.level != y.level || x.item != y.item {
 			return false, "block " + itoa(i) + " kind " + x.kind + "/" + y.kind
+		}
+		if x.depth != y.depth || x.item && (x.ord != y.ord || x.task != y.task) {
+			return false, "block " + itoa(i) + " list context"
 		}
 		if !sameChars(x.cs, y.cs) {
 			return false, "block " + itoa(i) + " text/flags " + csText(x.cs) + " / " + csText(y.cs)
